@@ -165,3 +165,33 @@ Proof.
   unfold log_client_ip. destruct (gate (env_value ev)) eqn:G; [|reflexivity].
   apply gate_fail_closed in G. contradiction.
 Qed.
+
+(* ---- the image of the sanitiser: exactly five address-free forms ---- *)
+
+Inductive sanitised_form : eshape -> Prop :=
+  | SFSentinel k : (k <= 5)%N -> sanitised_form (Leaf (LSentinel k))      (* rst timeout refused unreachable aborted closed *)
+  | SFShortWrite : sanitised_form (Leaf LShortWrite)                       (* "short write" (relay copy only) *)
+  | SFErrno n : sanitised_form (Leaf (LErrno n))                          (* the bare errno text *)
+  | SFOpErrno n : sanitised_form (EWrap false (Leaf (LErrno n)))           (* "<op>: <errno text>" *)
+  | SFOpaque : sanitised_form (Leaf (LText false)).                        (* "unrecognized error (<type>)" *)
+
+Lemma sanitised_form_clean g : sanitised_form g -> mentions g = false.
+Proof. destruct 1; reflexivity. Qed.
+
+Lemma generalize_image v e g : generalize v e = Some g -> sanitised_form g.
+Proof.
+  unfold generalize, generalize_with. destruct e as [e|]; [|discriminate].
+  destruct (_ || _ || _ || _).
+  { destruct v; [intros [= <-]; constructor; cbv; discriminate | discriminate]. }
+  repeat (match goal with |- (if ?c then _ else _) = _ -> _ => destruct c; [intros [= <-]; constructor; try (cbv; discriminate)|] end).
+  intros [= <-]. unfold address_free. destruct (find_errno e); [destruct (has_op e)|]; constructor.
+Qed.
+
+(* short write only from the relay's copy, "closed" only from the handler's *)
+Lemma conns_never_short_write e : generalize Conns e <> Some (Leaf LShortWrite).
+Proof.
+  intros H. unfold generalize, generalize_with in H. destruct e as [e|]; [|discriminate].
+  cbn [negb] in H.
+  repeat match type of H with (if ?c then _ else _) = _ => destruct c; [discriminate|] end.
+  unfold address_free in H. destruct (find_errno e); [destruct (has_op e)|]; discriminate.
+Qed.
